@@ -274,7 +274,7 @@ func Run(tier string) int {
 	if r.Thorough() {
 		modes = append(modes, pdf.ErrorHandlingRecover, pdf.ErrorHandlingReport)
 	}
-	RunPlans(r, plans, &wprog.Env{HandRefs: true, FailedCallsFirst: true}, func(res *wprog.Result, choices []int) {
+	RunPlans(r, plans, &wprog.Env{HandRefs: true, FailedCallsFirst: true, ManyObjects: true}, func(res *wprog.Result, choices []int) {
 		cs := wprog.Case{Cfg: res.Cfg, MaxOps: 99, Choices: append([]int{}, choices...), Ops: res.Ops}
 		if res.NumOps > 0 {
 			r.DistinctS(res.Cfg.String() + strings.Join(res.Ops, ";"))
@@ -304,7 +304,7 @@ func Replay(path string) int {
 	}
 	r := ev.New("C02", "quick", "model_checking", time.Minute)
 	r.SetReplayMode()
-	res := wprog.Replay(cs, &wprog.Env{HandRefs: true, FailedCallsFirst: true})
+	res := wprog.Replay(cs, &wprog.Env{HandRefs: true, FailedCallsFirst: true, ManyObjects: true})
 	fmt.Println("program:", strings.Join(res.Ops, "; "), "accepted:", res.Accepted, res.Reject)
 	if res.Accepted {
 		for _, mode := range []pdf.ReaderErrorHandling{pdf.ErrorHandlingStop, pdf.ErrorHandlingRecover, pdf.ErrorHandlingReport} {
